@@ -4,6 +4,7 @@ mod common;
 mod obs;
 mod gen;
 mod c01;
+mod c10;
 mod c18;
 
 fn main() {
@@ -18,6 +19,7 @@ fn main() {
     match prop {
         "C18" => c18::run(&mut sink, thorough, seed),
         "C01" => c01::run(&mut sink, thorough, seed),
+        "C10" => c10::run(&mut sink, thorough, seed),
         "replay" => { /* replay lines are `op args…` on stdin */
             let mut s = String::new();
             use std::io::Read;
@@ -39,6 +41,7 @@ fn replay(sink: &mut common::Sink, toks: &[&str]) {
     match toks[0] {
         "ptr" | "ptrmut" | "pidx" => c18::replay(sink, toks),
         "pv" | "pi" => c01::replay(sink, toks),
+        "pfx" => c10::replay(sink, toks),
         _ => eprintln!("cannot replay op {}", toks[0]),
     }
 }
